@@ -1,6 +1,7 @@
 package radixdb
 
 import (
+	"bytes"
 	"errors"
 	"fmt"
 	"sync/atomic"
@@ -41,19 +42,40 @@ func FromObject(obj interface{}) ([]byte, error) {
 	return item.Key, nil
 }
 
+// toIndexKey maps a key to the key used in the radix index. The radix iterators need an
+// index in which no key is a prefix of another one and which is ordered like the raw keys.
+// A plain 0x00 terminator is not enough for keys that contain 0x00 themselves, so every
+// 0x00 of the key is escaped as 0x00 0xff and the key is terminated by 0x00 0x00.
 func toIndexKey(key []byte) []byte {
 	if key == nil {
 		return nil
 	}
-	key = append(key, '\x00')
-	return key
+	ik := make([]byte, 0, len(key)+bytes.Count(key, []byte{0})+2)
+	for _, c := range key {
+		ik = append(ik, c)
+		if c == 0 {
+			ik = append(ik, 0xff)
+		}
+	}
+	return append(ik, 0, 0)
 }
 
-func extractFromIndexKey(key []byte) []byte {
-	if len(key) == 0 {
-		return key
+func extractFromIndexKey(ik []byte) []byte {
+	if len(ik) < 2 {
+		return ik
 	}
-	return key[:len(key)-1]
+	ik = ik[:len(ik)-2]
+	if bytes.IndexByte(ik, 0) < 0 {
+		return ik
+	}
+	key := make([]byte, 0, len(ik))
+	for i := 0; i < len(ik); i++ {
+		key = append(key, ik[i])
+		if ik[i] == 0 {
+			i++
+		}
+	}
+	return key
 }
 
 // Txn is a transaction against a MemDB.
